@@ -475,11 +475,46 @@ pub fn call(wb: &mut Wb, c: &str) -> String {
     }
 }
 
+/// VH_STACK_MB=<n>: run the case on a thread with an n MiB stack (the size a program gets by
+/// default), so that unbounded recursion overflows it and is seen as an abort instead of being
+/// absorbed by the unlimited stack the driver gives the process.  Panics are caught inside the
+/// thread and answered as "panic<TAB>info" / "alloc<TAB>info" like the per-call ones.
 pub fn run(args: &[&str]) -> String {
+    let mb = std::env::var("VH_STACK_MB").ok().and_then(|v| v.parse::<usize>().ok());
+    let Some(mb) = mb else {
+        return run_inner(args);
+    };
+    let owned: Vec<String> = args.iter().map(|s| s.to_string()).collect();
+    let child = std::thread::Builder::new().stack_size(mb << 20).spawn(move || {
+        let a: Vec<&str> = owned.iter().map(|s| s.as_str()).collect();
+        match std::panic::catch_unwind(std::panic::AssertUnwindSafe(|| run_inner(&a))) {
+            Ok(s) => s,
+            Err(_) => {
+                let kind = if crate::ALLOC_TRIPPED.load(std::sync::atomic::Ordering::Relaxed) {
+                    "alloc"
+                } else {
+                    "panic"
+                };
+                if crate::verbose_panics() {
+                    format!("{}\t{}", kind, crate::last_panic())
+                } else {
+                    kind.to_string()
+                }
+            }
+        }
+    });
+    match child.map(|c| c.join()) {
+        Ok(Ok(s)) => s,
+        _ => "panic".to_string(),
+    }
+}
+
+fn run_inner(args: &[&str]) -> String {
     let bytes = match std::fs::read(args[1]) {
         Ok(b) => b,
         Err(_) => return "nofile".to_string(),
     };
+    crate::set_relative_alloc_cap(bytes.len());
     let mut wb = match open(args[0], bytes) {
         Ok(w) => w,
         Err(c) => return format!("openerr:{}", c),
